@@ -45,6 +45,9 @@ RULE = ('kernel cases: seeded record columns of 2-12 surfaces, sphere centres ne
         'construction histories x routes (fields entered before set_field_type, field type changed after the fields, settings repeated; '
         'ready-made Surface objects, reused Optic after reset(), to_dict/from_dict once and twice, save/load file): fixed corpus of 5 lenses through '
         'all 24 combinations, random lenses through 3 random ones, off-axis OPD against the oracle and against the plainly built lens; '
+        'OPD-difference operand on its documented Gaussian-quadrature samples and weights (1-6 rings, axial field: 1 arm, otherwise 3 arms) against '
+        'the oracle reduced over ALL samples: fixed corpus (every sample arrives / outermost ring misses a strongly curved surface / outermost ring '
+        'totally reflected; infinite and finite objects), random lenses at their own aperture and widened until some but not all samples fail; '
         'non-trivial = finite reported OPD on a distinct (lens, field, wavelength, distribution)')
 PARTIAL = [
     'the optical path recorded by the trace (sum of n*length) is C02\'s theorem, here a hypothesis of the model (ropd)',
@@ -824,6 +827,106 @@ def _route_checks(ctx, nl, seed_mul=61, corpus_combos=None):
     return evals, hist['corpus_lenses'] + hist['random_lenses'], wits, hist
 
 
+def _operand_checks(ctx, nl, seed_mul=71):
+    """the OPD-difference operand against the property's quantity EVALUATED ON ITS DOCUMENTED SAMPLES: the documented
+    Gaussian-quadrature points (c09lib.gq_documented: tabulated radii, 1 arm on axis / 3 arms off axis, weights 6 w / 2 w;
+    the table is tied to Gauss-Legendre) are traced, the OPD of every sample comes from the oracle (a sample whose ray does
+    not reach the image has no optical path: NaN), the reduction mean|w (d - mean d)| runs over ALL of them.  Lens classes:
+    a fixed corpus (every sample arrives / only the outermost ring passes outside a strongly curved surface / only the
+    outermost ring is totally reflected; infinite and finite objects) for the axial and the full field, and seeded random
+    lenses at their own aperture and with the aperture widened until some but not all samples fail.
+    Returns (evaluations, distinct lenses, witnesses, histogram)"""
+    import copy
+    import random
+    import warnings
+    import numpy as np
+    import c09lib
+    warnings.simplefilter('ignore')
+    np.seterr(all='ignore')
+    rng = random.Random(ctx.seed * seed_mul + 9)
+    hist = {'corpus_cases': 0, 'random_cases': 0, 'classes': {}, 'rings': {}, 'axial_field': 0, 'off_axis_field': 0,
+            'cases_where_every_sample_arrives': 0, 'cases_where_some_but_not_all_samples_fail': 0, 'cases_where_all_samples_fail': 0,
+            'chief_lost': 0, 'failed_samples': 0, 'samples': 0, 'operand_finite': 0, 'operand_nan': 0,
+            'widened_random_lenses': 0, 'errors': {}, 'gq_table_vs_gauss_legendre_max_deviation': c09lib.gq_table_deviation()}
+    wits = []
+    evals = 0
+    lenses = 0
+    if not hist['gq_table_vs_gauss_legendre_max_deviation'] < 5e-5:
+        raise RuntimeError('c09lib: the tabulated Gaussian-quadrature samples are not the Gauss-Legendre rule')
+
+    def one(spec, o, H, w, rings, label, kind):
+        nonlocal evals
+        try:
+            rec, wit = c09lib.operand_case(spec, o, H, w, rings)
+        except Exception as e:   # noqa
+            key = f'{label}:{type(e).__name__}'
+            hist['errors'][key] = hist['errors'].get(key, 0) + 1
+            return None
+        evals += 1
+        hist[kind] += 1
+        hist['classes'][label] = hist['classes'].get(label, 0) + 1
+        hist['rings'][str(rings)] = hist['rings'].get(str(rings), 0) + 1
+        hist['axial_field' if H == (0.0, 0.0) else 'off_axis_field'] += 1
+        hist['samples'] += rec['samples']
+        hist['failed_samples'] += rec['failed']
+        hist['chief_lost'] += int(not rec['chief_ok'])
+        hist['cases_where_every_sample_arrives' if rec['failed'] == 0 else
+             ('cases_where_all_samples_fail' if rec['failed'] == rec['samples'] else 'cases_where_some_but_not_all_samples_fail')] += 1
+        hist['operand_finite' if math.isfinite(rec['operand']) else 'operand_nan'] += 1
+        if wit is not None:
+            wit['lens_class'] = label
+            wits.append(wit)
+        return rec
+
+    for spec, rings, label in c09lib.operand_corpus():
+        try:
+            o = c09lib.build(spec)
+        except Exception as e:   # noqa
+            hist['errors'][type(e).__name__] = hist['errors'].get(type(e).__name__, 0) + 1
+            continue
+        lenses += 1
+        w = float(spec['wavelengths'][0][0])
+        for H in ((0.0, 0.0), (0.0, 1.0)):
+            one(spec, o, H, w, rings, label, 'corpus_cases')
+    tries = 0
+    done = 0
+    while done < nl and tries < 6 * nl:
+        tries += 1
+        spec = c09lib.gen_spec(rng, exotic=False)
+        rings = rng.choice([1, 2, 3, 4, 5, 6])
+        try:
+            o = c09lib.build(spec)
+            w = float(rng.choice(spec['wavelengths'])[0])
+            H = tuple(float(v) for v in o.fields.get_field_coords()[rng.randrange(len(spec['fields']))])
+        except Exception as e:   # noqa
+            hist['errors'][type(e).__name__] = hist['errors'].get(type(e).__name__, 0) + 1
+            continue
+        rec = one(spec, o, H, w, rings, 'random-lens-own-aperture', 'random_cases')
+        if rec is None:
+            continue
+        done += 1
+        lenses += 1
+        if rec['failed'] == 0 and spec['aperture'][0] == 'EPD' and rings > 1:
+            # the same lens with a wider beam: the smallest of a few factors at which some (not all) samples are lost
+            for fac in (1.5, 2.2, 3.2, 4.7, 7.0, 10.0):
+                s2 = copy.deepcopy(spec)
+                s2['aperture'] = ['EPD', spec['aperture'][1] * fac]
+                try:
+                    o2 = c09lib.build(s2)
+                    xs, ys, _ = c09lib.gq_documented(rings, on_axis=(H == (0.0, 0.0)))
+                    o2.trace_generic(H[0], H[1], np.array(xs), np.array(ys), w)
+                    arrived = np.isfinite(np.ravel(o2.surface_group.x[-1, :]))
+                except Exception:   # noqa
+                    break
+                if 0 < int(np.sum(~arrived)) < len(xs):
+                    hist['widened_random_lenses'] += 1
+                    one(s2, o2, H, w, rings, 'random-lens-widened-beam', 'random_cases')
+                    break
+                if not np.any(arrived):
+                    break
+    return evals, lenses, wits, hist
+
+
 def system_checks(ctx):
     import c09lib
     cases, hist = _cases(ctx, ctx.n(55, 700))
@@ -896,6 +999,18 @@ def system_checks(ctx):
         import traceback
         res5['error'] = traceback.format_exc()[-800:]
     yield res5
+    res6 = {'name': 'opd-difference-operand-on-documented-samples-vs-oracle', 'n': 0, 'nontrivial': 0, 'samples': [], 'disagreements': []}
+    try:
+        n6, l6, w6, h6 = _operand_checks(ctx, ctx.n(12, 120))
+        res6.update(n=n6, nontrivial=l6, histogram=h6, disagreements=w6[:20])
+        res6['note'] = ('RayOperand.OPD_difference against mean|w (OPD - mean OPD)| with the oracle\'s OPD on the documented Gaussian-quadrature '
+                        'samples and weights (tabulated independently, tied to Gauss-Legendre), the reduction over ALL samples: fixed corpus with '
+                        'beams that arrive entirely and beams whose outermost ring misses a surface / is totally reflected (axial and full field, '
+                        'infinite and finite objects), random lenses at their own and at a widened aperture')
+    except Exception as e:   # noqa
+        import traceback
+        res6['error'] = traceback.format_exc()[-800:]
+    yield res6
     res2 = {'name': 'derived-quantities-vs-implementation', 'n': 0, 'nontrivial': 0, 'samples': [], 'disagreements': []}
     try:
         n, lenses, bad = _derived_checks(ctx)
@@ -929,7 +1044,8 @@ def search(ctx, broken, disagreements):
             take([w])
             if len(unlisted) >= 2:
                 break
-    for fn, n, sm in ((_route_checks, ctx.n(8, 60), 67), (_multi_checks, ctx.n(15, 120), 47), (_lifecycle_checks, ctx.n(10, 80), 59)):
+    for fn, n, sm in ((_operand_checks, ctx.n(20, 150), 73), (_route_checks, ctx.n(8, 60), 67), (_multi_checks, ctx.n(15, 120), 47),
+                      (_lifecycle_checks, ctx.n(10, 80), 59)):
         if len(unlisted) >= 3:
             break
         try:
